@@ -347,3 +347,51 @@ prop("C17",
      "Bounded depth/threads/ops/name domain.",
      "explicit enumeration of operation sequences + stateless model checking (deviation-bounded DFS) with linearizability checking",
      "DESIGN.md 4/C17")
+
+
+prop("C18",
+     [dict(name="C18", src="C18.cpp", cxxflags=LOCK_FLAGS, deadline=dict(quick=100, thorough=1500))],
+     "Sequential part: every call sequence up to depth 4 (5 thorough) over {getFuture(k), setDelayedValue(k,v) copy "
+     "and move, fulfillAllPromises(v), finishedWithValue(k)} for keys {int 0, int 1, string \"x\"} (each key "
+     "requested once) on DelayedObjects<int> and DelayedObjects<std::string> (heap-allocated values), followed by "
+     "destruction; after every step isRecognized / isCompleted for every key and the readiness of every handed-out "
+     "future are compared with a reference life-cycle model, and at the end every future must deliver the "
+     "reference value. Concurrent part: " + SCHED_RULE + " Programs: futures requested up front with one "
+     "consumer fiber each (awaiting readiness, then get()), 2-3 clients issuing setters (copy/move), "
+     "fulfillAllPromises, finishedWithValue, queries and a further getFuture; the container is destroyed while "
+     "consumers may still be waiting.",
+     "Oracles: no exception escapes any call (promise_already_satisfied) and no future delivers an error "
+     "(broken_promise); every handed-out future is ready after destruction and consumers never stay blocked "
+     "(deadlock detector); the call results together with the values the futures delivered have a sequential "
+     "explanation against the life-cycle model (brute-force linearizability; destruction fulfils the rest with "
+     "X{}); arena leak / use-after-free; race detector.",
+     A_COMMON + [A_MM],
+     "Exhaustive enumeration of call sequences against a reference life-cycle model plus exhaustive "
+     "deviation-bounded exploration of concurrent setters / fulfillers / finishers / consumers.",
+     "Bounded depth/threads/ops/keys; futures inspected with wait_for(0) / get() after readiness only.",
+     "explicit enumeration of operation sequences + stateless model checking (deviation-bounded DFS) with linearizability checking",
+     "DESIGN.md 4/C18")
+
+
+prop("C19",
+     [dict(name="C19", src="C19.cpp", cxxflags=LOCK_FLAGS, deadline=dict(quick=100, thorough=1500), required_cover=2)],
+     "Sequential part: every sequence up to depth 4 (5 thorough) over {create trigger in slot 0/1 on line L0, L1 "
+     "(explicit), declared, indexed[0], indexed[1]; move-construct slot->slot; move-assign slot->slot; destroy "
+     "slot (including moved-from objects); out-of-range index}; after every step a fresh detector on every line is "
+     "compared with a reference (a line is tripped once a trigger currently attached to it has been destroyed; "
+     "the old line of a move-assignment target is unspecified and skipped; an out-of-range index must throw "
+     "std::out_of_range). The process-wide declared/indexed lines are restored before each execution. Concurrent "
+     "part: " + SCHED_RULE + " Programs: a triggering thread writes plain data and destroys its trigger "
+     "(directly / after move-construction with the moved-from object destroyed first / after taking it over from "
+     "main / on an indexed line), 1-2 pollers call isTripped 1-3 times and read the data on the first true; "
+     "stale reads of the acquire load are explored (R<=2).",
+     "Oracles: reference trip state per line; crash handler (null dereference = violation with schedule); each "
+     "detector's answers are monotone, also under stale reads; a detector on another line stays false; after "
+     "observing true the plain reads of the published data are race free and see the written values "
+     "(release/acquire edge, vector-clock detector); after join the line is tripped; arena.",
+     A_COMMON + [A_MM],
+     "Exhaustive enumeration of trigger life-cycle sequences (incl. moves) against a reference plus exhaustive "
+     "deviation-bounded exploration with reads-from choices of the trigger/poller programs.",
+     "Bounded depth/threads/polls; static lines restored between executions by the harness.",
+     "explicit enumeration of operation sequences + stateless model checking (deviation-bounded DFS with reads-from choices)",
+     "DESIGN.md 4/C19")
